@@ -12,6 +12,7 @@ Rust field types; `extra` = the pass-through properties of the stored publish.
 -/
 import Proofs.Lemmas.Encode
 import Proofs.Props.C04
+import Proofs.Lemmas.Router.Rp16_Emittable
 namespace C20
 open Encode Codec Admission
 
@@ -211,5 +212,76 @@ example : write .v5 (ofNotif [] (.disconnect "ProtocolError")) = .ok [0xe0, 2, 0
   simp [write, ofNotif, discReasonOf, DNotif.toPacket, protocolWrite, V5.encode, V5.encodeRet,
     V5.encDisconnect, V5.disconnectLen, V5.disconnectPlain, V5.encProps, V5.discReasonByte, encVarint,
     encVarintLoop_lt128, remainingLimit, u8]
+
+/-! ### `Emittable` and the router model (PARTIAL: sweep / packet / flush level, not yet a reachable-state invariant)
+
+The router model does not record the protocol version of a connection; `Router.versionOf c` reads it off
+what the version decides: `v4` iff the connection has no broker aliases (`topic_alias_max = 0` at CONNECT)
+and no subscription identifiers. Input ranges: `Router.PacketOk` / `Router.OpOk` (u16 packet ids, QoS ≤ 2,
+16-bit topic length, subscription identifier in variable-byte range, SUBSCRIBE / UNSUBSCRIBE whose ack fits a
+frame); for stored publishes `Router.StoredOk` (no alias, no subscription ids — `append_to_commitlog` strips
+/ rejects them —, u16 packet id, 16-bit topic length, properties flagged when there are pass-through
+properties) and `Router.FitsForward` (the frame limit, for every forward that can be built from it).
+Missing for the invariant over reachable states: (1) that every publish a sweep reads — log entries returned
+by `readv`, retained messages — is `StoredOk` (an invariant over the commit-log contents), (2) the pass of
+"every link-buffer element is old or was pushed by one of the three producers below" over all router
+functions, (3) `AliasesOk` and the subscription-id range as invariants (they follow from `OpOk` on CONNECT /
+SUBSCRIBE). The three producers are covered: -/
+
+/-- C20 (forwards, PARTIAL): every notification a sweep builds for connection `c` — `fdOut`, which
+    `forward_device_data` pushes to `c`'s link as it is — is `Emittable` for `versionOf c`: packet ids are
+    `1..MAX_INFLIGHT` for QoS > 0 and the stored (u16) id for QoS 0, the topic is the stored one or replaced by
+    an existing alias ≤ `topic_alias_max`, and towards a v4-like connection no forward carries an alias or a
+    subscription identifier -/
+theorem sweep_forwards_emittable_partial {c : Router.Conn} {req : Router.DataRequest}
+    {pubs : List (Router.Pub × Option Router.Cursor)} {extra : Props}
+    (hsrc : ∀ pc ∈ pubs, Router.StoredOk pc.1 extra = true ∧ Router.FitsForward pc.1 extra) (hx : extraOk extra = true)
+    (hq : req.qos ≤ 2) (hlast : c.out.lastPkid < Router.MAX_INFLIGHT) (hal : Router.AliasesOk c)
+    (hsid : ∀ i, Router.alookup req.filter c.subscriptionIds = some i → i ≤ remainingLimit) :
+    ∀ n ∈ (Router.fdOut c req pubs).2, Emittable (Router.versionOf c) extra n = true :=
+  Router.fdOut_emittable hsrc hx hq hlast hal hsid
+
+/-- hence they are written without error by the codec of that version -/
+theorem sweep_forwards_encodable_partial {c : Router.Conn} {req : Router.DataRequest}
+    {pubs : List (Router.Pub × Option Router.Cursor)} {extra : Props}
+    (hsrc : ∀ pc ∈ pubs, Router.StoredOk pc.1 extra = true ∧ Router.FitsForward pc.1 extra) (hx : extraOk extra = true)
+    (hq : req.qos ≤ 2) (hlast : c.out.lastPkid < Router.MAX_INFLIGHT) (hal : Router.AliasesOk c)
+    (hsid : ∀ i, Router.alookup req.filter c.subscriptionIds = some i → i ≤ remainingLimit) :
+    ∀ n ∈ (Router.fdOut c req pubs).2, encodable (Router.versionOf c) (ofNotif extra n) = true := by
+  intro n hn
+  have h := sweep_forwards_emittable_partial hsrc hx hq hlast hal hsid n hn
+  cases hv : Router.versionOf c with
+  | v4 => rw [hv] at h; exact router_emits_encodable_v4 extra n h
+  | v5 => rw [hv] at h; exact router_emits_encodable_v5 extra n h
+
+/-- C20 (acks, PARTIAL): a packet in range (`PacketOk`) handled for a live connection leaves every link
+    buffer untouched and every ack log in range (`AckLogsOk`: the replies registered are `ackOk`); and the
+    flush `ack_device_data` appends exactly the ack log to the connection's own link, every element
+    `Emittable` — hence encodable — for either version -/
+theorem acks_emittable_partial {s s' : Router.RState} {id : Nat} {cid : String} {pkt : Router.Packet}
+    {fl fl' : Router.Flags} (hp : Router.PacketOk pkt = true) (hi : Router.AckLogsOk s)
+    (hlive : ∃ c, Router.getConn s id = some c) (h : Router.handlePacket s id cid pkt fl = .ok (s', fl')) :
+    s'.links = s.links ∧ Router.AckLogsOk s' ∧
+    ∀ j c (v : Admission.Version) (extra : Props), Router.getConn s' j = some c →
+      (Router.getLink (Router.ackDeviceData s' j) c.link).obuf =
+        (Router.getLink s' c.link).obuf ++ c.acks.committed.map Router.Notif.ack ∧
+      ∀ n ∈ c.acks.committed.map Router.Notif.ack, Emittable v extra n = true ∧ encodable v (ofNotif extra n) = true := by
+  obtain ⟨h1, h2⟩ := Router.handlePacket_acklogs hp hi hlive h
+  refine ⟨h1, h2, fun j c v extra hc => ?_⟩
+  obtain ⟨a, b, _⟩ := Router.ackDeviceData_emittable hc h2 v extra
+  refine ⟨a, fun n hn => ⟨b n hn, ?_⟩⟩
+  cases v with
+  | v4 => exact router_emits_encodable_v4 extra n (b n hn)
+  | v5 => exact router_emits_encodable_v5 extra n (b n hn)
+
+/-- non-vacuity (kernel-evaluated): a reachable state with a non-empty link buffer — CONNECT, a PINGREQ,
+    the DeviceData event and the sweep: the buffer holds the CONNACK and the PINGRESP — all of whose
+    elements are `Emittable` for a v4 and for a v5 connection; the pushed packet satisfies `OpOk` -/
+example : ∃ s, Router.Reachable ⟨10, 1024, 2, 10, .roundRobin⟩ s ∧
+    (Router.getLink s 0).obuf.length = 2 ∧
+    (Router.getLink s 0).obuf.all (fun n => Emittable .v4 [] n && Emittable .v5 [] n) = true ∧
+    Router.OpOk (.push 0 .pingreq) = true :=
+  ⟨_, Router.Reachable.ofX [(.connect ⟨0, "a", true, false, 0, none⟩, []), (.push 0 .pingreq, []),
+      (.event 0 .deviceData, []), (.consume, [])] rfl, by decide, by decide, rfl⟩
 
 end C20
